@@ -90,6 +90,37 @@ def monitor_selftest(ctx, traces):
     ctx.cov["monitor_selftest"] = done
 
 
+def unbounded_bound(ctx):
+    """C09's bound for every capacity and any number of items: TLAPS proves Spec => []Bounded on
+    the distilled queue discipline spec/BatcherCore.tla; TLC checks that Batcher.tla implements
+    BatcherCore (refinement).  The proof is an additional argument: if the prover is not
+    available or times out, that is recorded, it does not change the verdict."""
+    import shutil
+    import subprocess
+    import re
+    r = ctx.tlc("MCBatcher", "Batcher_refine.cfg", workers=6, timeout=900, label="refine", coverage=False)
+    if r.violated:
+        ctx.spec_violation(r, "Batcher.tla does not implement BatcherCore.tla (%s)" % r.violated)
+        return
+    info = {"refinement_states": r.distinct, "prover": "tlapm", "status": "not run"}
+    work = os.path.join(ctx.out, "tlaps")
+    os.makedirs(work, exist_ok=True)
+    shutil.copy(os.path.join(vlib.SPEC, "BatcherCore.tla"), work)
+    try:
+        p = subprocess.run(["tlapm", "--threads", "4", "BatcherCore.tla"], cwd=work, timeout=600,
+                           stdout=subprocess.PIPE, stderr=subprocess.STDOUT, text=True)
+        m = re.search(r"All (\d+) obligations? proved", p.stdout)
+        if m:
+            info.update(status="proved", obligations=int(m.group(1)), discharged=int(m.group(1)),
+                        theorem="BatcherCore!Safety: Spec => []Bounded, for all Cap >= 1 and all item sets")
+        else:
+            info.update(status="not proved", output=p.stdout[-600:])
+    except (OSError, subprocess.TimeoutExpired) as e:
+        info.update(status="prover unavailable or timed out: %s" % e)
+    ctx.cov["unbounded"] = info
+    vlib.log("[tlaps] BatcherCore: %s" % info.get("status"))
+
+
 def flush_trees(ctx):
     """Carry-through of a flush through destination combinators: spec/Flush.tla (M) and its
     cases replayed on the real And/Option/Box/Arc/&/erased/wrap/Runtime (G)."""
@@ -160,6 +191,7 @@ def run(ctx, prop):
         from checks import fileset_common
         fileset_common.file_emitter_phase(ctx, "C07", clauses=("flush",))
     if prop == "C09" and ctx.replay_case() is None:
+        unbounded_bound(ctx)
         from checks import fileset_common
         fileset_common.file_emitter_phase(ctx, "C09", clauses=("bounded",))
 
